@@ -1,4 +1,4 @@
-"""C16 - PooledClient (and, pending, single-server HashClient / RetryingClient) behave like Client.
+"""C16 - PooledClient, HashClient (single-key operations) and RetryingClient behave like Client.
 
 Forwarding contracts proved by symbolic execution with Python's call-binding rules against the *current*
 signature of Client.<m> (read from the AST): for every key-addressed method m and every argument pack Client.m
@@ -10,14 +10,18 @@ accepts (all positional / optional ones by keyword / required only), PooledClien
   - swallows a failure only with ignore_exc on a read.
 PooledClient._create_client passes every shared option (serde, timeouts, no_delay, socket_module, keep-alive, key prefix,
 default_noreply, allow_unicode_keys, encoding, tls_context) and builds inner clients with ignore_exc=False.
+HashClient.<m> (every single-key method, plain and (server_key, key) keys, with _run_cmd / _get_client inlined and
+_safely_run_func by its C13 contract): same obligations - accepts every pack, one inner call on the routed client
+with the caller's bound arguments, result / exception passed through.
 "Same commands, same result in every server state" then follows from the same inner call + determinism of Client.m
 given the reply (server states enter only through the symbolic reply).
 """
 from . import poolmodel as pm
+from . import hashmodel as hm
 
 TRUSTED = ["call binding (pyvc.sym.bind_args)", "contextlib.contextmanager single-yield semantics", "pool contracts proved in C09"]
 ASSUMPTIONS = ["client_class is Client (no subclass overrides)"]
-NOT_COVERED = ["HashClient with one server (pooled or not): not yet mechanised", "RetryingClient: __getattr__ forwarding is proved in C17",
+NOT_COVERED = ["HashClient multi-key methods (set_many/get_many/gets_many/delete_many) and HashClient's constructor options (default_kwargs)", "RetryingClient: __getattr__ forwarding is proved in C17 (re-run here as dep:C17)",
                "non-key-addressed methods (stats, flush_all, quit, close, version, raw_command differ by design)"]
 BUDGET = {"quick": 30, "thorough": 120}
 FILTER_BY_PROPERTY = True
@@ -27,3 +31,4 @@ DEPENDS = ["C17"]
 def build(E, tier):
     pm.verify_pooled_client(E, methods=pm.KEYED)
     pm.verify_create_client(E)
+    hm.verify_hash_single(E)
